@@ -102,6 +102,14 @@ theorem frame_step {s s' : State} {t : Nat} {l : Label} (h : Inv s) (hs : step s
       | nil => unfold step at hs; rw [hph] at hs; simp only [hc] at hs; frm
       | cons a rest => unfold step at hs; rw [hph] at hs; simp only [hc] at hs; frm
     | m2 cs raised => unfold step at hs; rw [hph] at hs; simp only [hc] at hs; frm
+    | mRS cs raised res work =>
+      cases work with
+      | nil => unfold step at hs; rw [hph] at hs; simp only [hc] at hs; frm
+      | cons a rest => unfold step at hs; rw [hph] at hs; simp only [hc] at hs; frm
+    | mRJ cs raised res work raised2 =>
+      cases work with
+      | nil => unfold step at hs; rw [hph] at hs; simp only [hc] at hs; frm
+      | cons a rest => unfold step at hs; rw [hph] at hs; simp only [hc] at hs; frm
   | fin2 cs =>
     cases hc : s.call t with
     | stopping work =>
